@@ -198,18 +198,23 @@ pub fn execute(case: &Case) -> Executed {
     let cap = case.cap as usize;
     reactive_mutiny::verif::set_sequence_origin(case.origin);
     let container = make(case.kind, cap);
+    let mut container = Some(container);
     reactive_mutiny::verif::set_sequence_origin(0);
     let mut prefill = vec![];
-    for i in 0..case.prefill.min(case.cap) {
-        let v = payload::plain(200, i as u32);
-        assert!(container.put(v), "prefill rejected");
-        prefill.push(v);
+    {
+        let c2 = Arc::clone(container.as_ref().unwrap());
+        let n = case.prefill.min(case.cap);
+        match crate::sched::guarded(5_000, move || { let mut ok = vec![]; for i in 0..n { let v = payload::plain(200, i as u32); if c2.put(v) { ok.push(v); } else { break; } } ok }) {
+            Ok(ok) if ok.len() == n as usize => prefill = ok,
+            Ok(ok) => { std::mem::forget(container.take()); return Executed { ops: vec![], end: EndState::Panicked { tid: 255, msg: format!("a fresh container of capacity {} rejected insertion #{}", case.cap, ok.len() + 1) }, trace: vec![], inside: 0, len_at_end: 0, drained: vec![], prefill: ok }; },
+            Err(end) => { std::mem::forget(container.take()); return Executed { ops: vec![], end, trace: vec![], inside: 0, len_at_end: 0, drained: vec![], prefill: vec![] }; },
+        }
     }
     let log: Arc<Mutex<Vec<Op>>> = Arc::new(Mutex::new(vec![]));
     let sched = Sched::new(case.threads.len(), case.schedule.clone(), 20_000);
     let bodies: Vec<Box<dyn FnOnce(&ThreadCtx) + Send>> = case.threads.iter().enumerate().map(|(t, script)| {
         let script = script.clone();
-        let container = Arc::clone(&container);
+        let container = Arc::clone(container.as_ref().unwrap());
         let log = Arc::clone(&log);
         Box::new(move |ctx: &ThreadCtx| {
             let mut seq = 0u32;
@@ -229,17 +234,27 @@ pub fn execute(case: &Case) -> Executed {
     let ops = log.lock().unwrap().clone();
     let mut drained = vec![];
     let mut len_at_end = 0;
+    let mut end = outcome.end.clone();
     if outcome.end == EndState::Completed {
-        len_at_end = container.len();
-        while let Some(v) = container.get() {
-            drained.push(v);
-            if drained.len() > 4 * cap + 8 { break; }
+        let c2 = Arc::clone(container.as_ref().unwrap());
+        match crate::sched::guarded(10_000, move || { let len = c2.len(); let mut d = vec![]; while let Some(v) = c2.get() { d.push(v); if d.len() > 4 * cap + 8 { break; } } (len, d) }) {
+            Ok((len, d)) => { len_at_end = len; drained = d; },
+            Err(e) => { end = match e { EndState::Stall { .. } => EndState::Stall { stuck: vec![(99, 0)], parked: vec![] }, other => other }; std::mem::forget(container.take()); },
         }
     } else {
         // aborted runs may leave the container in a state its destructor cannot cope with
-        std::mem::forget(container);
+        std::mem::forget(container.take());
     }
-    Executed { ops, end: outcome.end, trace: outcome.trace, inside: outcome.switches_inside_ops, len_at_end, drained, prefill }
+    if end == EndState::Completed {
+        // the destructor drains what is left: guarded as well
+        struct Leak(Option<Arc<dyn Container>>);
+        impl Drop for Leak { fn drop(&mut self) { if std::thread::panicking() { std::mem::forget(self.0.take()); } } }
+        let c = container.take();
+        if let Err(e) = crate::sched::guarded(10_000, move || { let mut l = Leak(c); drop(l.0.take()); }) {
+            end = match e { EndState::Stall { .. } => EndState::Stall { stuck: vec![(98, 0)], parked: vec![] }, other => other };
+        }
+    }
+    Executed { ops, end, trace: outcome.trace, inside: outcome.switches_inside_ops, len_at_end, drained, prefill }
 }
 
 /// The oracle: `None` if the history is fine, otherwise (signature, detail)
